@@ -464,7 +464,7 @@ func walkChildren(n ast.Node) {
 
 func main() {
 	var in, out string
-	var consts, redirects, ranges, atomics multi
+	var consts, redirects, ranges, atomics, imports multi
 	var noSync, noTime, noChan bool
 	flag.StringVar(&in, "in", "", "input file")
 	flag.StringVar(&out, "out", "", "output file")
@@ -472,6 +472,7 @@ func main() {
 	flag.Var(&redirects, "redirect", "Func or Type.Method to rename to <name>_orig")
 	flag.Var(&ranges, "chanrange", "identifier/field name that is a channel when ranged over")
 	flag.Var(&atomics, "atomicpoint", "field name whose atomic operations become scheduling points")
+	flag.Var(&imports, "import", "old=new import path rewrite (local name kept), e.g. net=github.com/VKCOM/statshouse/internal/verif/vnet")
 	flag.BoolVar(&noSync, "nosync", false, "do not rewrite import sync")
 	flag.BoolVar(&noTime, "notime", false, "do not rewrite import time")
 	flag.BoolVar(&noChan, "nochan", false, "do not insert points / rewrite go and select")
@@ -571,6 +572,19 @@ func main() {
 	// 1. imports
 	for _, im := range f.Imports {
 		p, _ := strconv.Unquote(im.Path.Value)
+		for _, ir := range imports {
+			kv := strings.SplitN(ir, "=", 2)
+			if len(kv) == 2 && kv[0] == p {
+				im.Path.Value = strconv.Quote(kv[1])
+				if im.Name == nil {
+					nm := p
+					if i := strings.LastIndex(p, "/"); i >= 0 {
+						nm = p[i+1:]
+					}
+					im.Name = ast.NewIdent(nm)
+				}
+			}
+		}
 		switch {
 		case p == "sync" && !noSync:
 			im.Path.Value = strconv.Quote(base + "vsync")
